@@ -515,6 +515,12 @@ def rule_valueobj(prog: Program, classes: Optional[List[str]] = None) -> List[In
             others_ = {_other_name(mm_[1])} if dn_ == "__eq__" else set()
             direct = {n_.attr for n_ in walk_own(mm_[1].node) if isinstance(n_, ast.Attribute) and isinstance(n_.value, ast.Name) and n_.value.id in ({me_} | others_) and isinstance(n_.ctx, ast.Load)}
             hit = sorted(direct & set(lazy))
+            if hit and not any(_own_or_inherited(ci, x_) is not None for x_ in ("__eq__", "__hash__")):
+                # a work object that is mutated by design (upload state, stream chunk) and claims neither equality nor
+                # hashing: its token/state is a snapshot taken when the graph is built, not a value-object identity
+                out.append(Instance("R-VALUEOBJ", f"{ci.qual}#EQLAZY:{dn_}", INFO,
+                                    f"{ci.name} defines no __eq__/__hash__ (not a value object); {dn_} snapshots mutable fields {hit}", mm_[1].where(), nontrivial=False))
+                continue
             out.append(Instance("R-VALUEOBJ", f"{ci.qual}#EQLAZY:{dn_}", BAD if hit else OK,
                                 f"{dn_} reads {hit}, which {lazy[hit[0]]}() fills in later: the result depends on which properties were read before (not an equivalence relation over time)" if hit
                                 else f"{dn_} reads only fields fixed at construction", mm_[1].where()))
